@@ -34,7 +34,7 @@ StepOfImpl(t, r) ==
     ELSE IF r.e = "set" THEN [ok |-> SetOk(t, r), st |-> t]
     ELSE [ok |-> FALSE, st |-> t]
 TraceLog == ndJsonDeserialize(IOEnv.TRACE)
-T == INSTANCE TraceBase WITH Log <- TraceLog, InitSt <- <<>>, StepOf <- StepOfImpl
+T == INSTANCE TraceBase WITH Log <- TraceLog, InitSt <- <<>>, StepOf <- StepOfImpl, ResyncAtNew <- FALSE
 Spec == T!Spec
 Done == T!Done
 ====
